@@ -16,6 +16,7 @@ PROPS = {
     'C20': {
         'level': 'other',
         'proof': [('contracts.nmtable', None), ('contracts.intmath', None)],
+        'custom': [('contracts.b_rank', 'bounded_nonmem_tables')],
         'assumptions': [PY_SUBSET, FLOAT_AS_REAL],
         'explanation': 'selection of the NONMEM-designated rows (special iteration codes, documented fallbacks) '
                        'by the ExtTable accessors and triangular_root proved; the fixed-width parsing itself, '
@@ -83,6 +84,7 @@ PROPS = {
         'level': 'other',
         'proof': [('contracts.criteria', None)],
         'bounded': [],
+        'custom': [('contracts.b_rank', 'bounded_rank_models'), ('contracts.b_rank', 'bounded_tool_statistics')],
         'assumptions': [PY_SUBSET, FLOAT_AS_REAL],
         'explanation': 'AIC/BIC formulas and the likelihood-ratio test functions proved against their '
                        'definitions over abstract counts; ranking and tool statistics bounded',
